@@ -147,8 +147,17 @@ impl CssDoc {
         if r.chance(1, 2) { let mut cl = vec![*r.pick(CLASSES)]; if r.chance(1, 3) { let c2 = *r.pick(CLASSES); if !cl.contains(&c2) { cl.push(c2); } } attrs.push(("class", cl.join(*r.pick(&[" ", " ", " ", "  ", "\t", "\n", " \n ", "\u{c}"])))); }
         if r.chance(1, 4) { let id = format!("i{}", self.ids.len() + 1); self.ids.push(id.clone()); attrs.push(("id", id)); }
         let mut kids = vec![];
+        // markup that the parser has to repair: an inline element closed inside a block that was opened after it
+        // (the adoption agency moves the block's children into a clone of the inline element)
+        if !structural && !inline_parent && parent != "ul" && depth <= 2 && r.chance(1, 14) {
+            let (inl, blk) = (*r.pick(&["em", "b", "strong", "i"]), *r.pick(&["p", "div"]));
+            let (c1, c2) = (*r.pick(CLASSES), *r.pick(CLASSES));
+            return N::Raw(format!("<{inl} class=\"{c1}\"><{blk}>{} <span class=\"{c2}\">{}</span></{inl}> {}</{blk}>", self.token(), self.token(), self.token()));
+        }
         let nk = if structural { r.range(1, 3) } else if depth >= 3 { r.below(2) } else { r.below(4) };
         if name != "ul" && !structural && r.chance(2, 3) { kids.push(N::T(self.token())); }
+        // an element written directly inside <table> / <tr>: the parser moves it in front of the table
+        if structural && r.chance(1, 6) { let c = *r.pick(CLASSES); kids.push(N::ela(*r.pick(&["p", "div", "span"]), vec![("class", c.to_string())], vec![N::T(self.token())])); }
         for _ in 0..nk {
             kids.push(self.element(r, if structural { depth } else { depth + 1 }, name));
             if name != "ul" && !structural && r.chance(1, 3) { kids.push(N::T(format!(" {} ", self.token()))); }
